@@ -175,7 +175,130 @@ func atoi(s string) int { n, _ := strconv.Atoi(s); return n }
 
 // runScenario executes the scenario on the real transport and produces the
 // driver lines that replay it on the model.
+// runQueuedCancel: call A is sent and pending; the serve loop is held while it takes call B; call C is
+// enqueued behind it and its caller gives up while C is still in the queue; the loop is released; the
+// peer then answers A and B.  A and B must get their own replies, C its context's error.
+func runQueuedCancel(sc scenario, rep *hx.Report) outcome {
+	var out outcome
+	hold := make(chan struct{})
+	held := make(chan struct{}, 1)
+	queued := make(chan struct{}, 1)
+	var once sync.Once
+	sniproxy.VerifSetHook(func(ev sniproxy.VerifEvent) {
+		if ev.Point == "serve.take" && ev.Tag == "h:qcB" {
+			once.Do(func() {
+				held <- struct{}{}
+				select {
+				case <-hold:
+				case <-time.After(5 * time.Second):
+				}
+			})
+		}
+		if ev.Point == "caller.queued" && ev.Tag == "h:qcC" {
+			select {
+			case queued <- struct{}{}:
+			default:
+			}
+		}
+	})
+	defer sniproxy.VerifSetHook(nil)
+	p, err := snix.NewPeer()
+	if err != nil {
+		out.skipped, out.note = true, "peer: "+err.Error()
+		return out
+	}
+	defer p.Close(5 * time.Second)
+	results := []string{"stuck", "stuck", "stuck"}
+	var mu sync.Mutex
+	var wg sync.WaitGroup
+	call := func(i int, ctx context.Context, msg string) {
+		wg.Add(1)
+		go func() {
+			defer wg.Done()
+			got, err := p.Client.Hello(ctx, msg)
+			mu.Lock()
+			defer mu.Unlock()
+			if err == nil {
+				results[i] = "ok:" + hx.Hex([]byte(got))
+			} else {
+				results[i] = snix.ErrClass(err)
+			}
+		}()
+	}
+	call(0, context.Background(), "qcA")
+	ra, ok := p.NextReq(5 * time.Second)
+	if !ok {
+		out.skipped, out.note = true, "request A not received"
+		return out
+	}
+	call(1, context.Background(), "qcB")
+	select {
+	case <-held:
+	case <-time.After(5 * time.Second):
+		out.skipped, out.note = true, "serve loop did not take call B"
+		close(hold)
+		return out
+	}
+	ctx, cancel := context.WithCancel(context.Background())
+	call(2, ctx, "qcC")
+	select {
+	case <-queued:
+	case <-time.After(5 * time.Second):
+	}
+	cancel()
+	for t0 := time.Now(); time.Since(t0) < 5*time.Second; time.Sleep(time.Millisecond) {
+		mu.Lock()
+		r := results[2]
+		mu.Unlock()
+		if r != "stuck" {
+			break
+		}
+	}
+	close(hold)
+	rb, ok := p.NextReq(5 * time.Second)
+	if !ok {
+		out.skipped, out.note = true, "request B not received"
+		return out
+	}
+	time.Sleep(20 * time.Millisecond) // the loop deals with what is left of C
+	fa := snix.ReplyFrame(ra.ID, helloTyp, 0, snix.StrBody("RA"))
+	fb := snix.ReplyFrame(rb.ID, helloTyp, 0, snix.StrBody("RB"))
+	p.Send(fa)
+	p.Send(fb)
+	for t0 := time.Now(); time.Since(t0) < 5*time.Second; time.Sleep(time.Millisecond) {
+		mu.Lock()
+		done := results[0] != "stuck" && results[1] != "stuck"
+		mu.Unlock()
+		if done {
+			break
+		}
+	}
+	p.Sever()
+	hx.WithTimeout(10*time.Second, wg.Wait)
+	mu.Lock()
+	out.results = append([]string{}, results...)
+	mu.Unlock()
+	want := []string{"ok:" + hx.Hex([]byte("RA")), "ok:" + hx.Hex([]byte("RB")), "err:ctx"}
+	for i := range want {
+		if out.results[i] != want[i] {
+			key := "answered-call-not-completed"
+			if i == 2 {
+				key = "cancelled-call-did-not-return-its-context-error"
+			}
+			rep.Fail(key, fmt.Sprintf("call %d of (A pending, B being taken, C cancelled while queued) ended as %s; expected %s (the peer answered A and B with their own ids)", i, out.results[i], want[i]), sc.lines)
+		}
+	}
+	out.model = []string{"init typ=1,1,1 ctx=2", "ev check 0", "ev enqueue 0", "ev take", "ev check 1", "ev enqueue 1", "ev take",
+		"ev check 2", "ev enqueue 2", "ev giveup 2", "ev take",
+		"reply cap=0 " + hx.Hex(snix.ReplyFrame(0, helloTyp, 0, snix.StrBody("RA"))), "reply cap=0 " + hx.Hex(snix.ReplyFrame(1, helloTyp, 0, snix.StrBody("RB"))),
+		"ev sever", "quiesce", "results"}
+	return out
+}
+
 func runScenario(sc scenario, rep *hx.Report) outcome {
+	if len(sc.lines) == 1 && sc.lines[0] == "queuedcancel" {
+		return runQueuedCancel(sc, rep)
+	}
 	var out outcome
 	markerSeen := make(chan struct{}, 4)
 	sendFailSeen := make(chan struct{}, 4)
@@ -625,6 +748,13 @@ func main() {
 	} else {
 		for _, ops := range hx.CorpusOps("C03") {
 			scs = append(scs, scenario{ops})
+		}
+		nq := 8
+		if f.Thorough() {
+			nq = 60
+		}
+		for i := 0; i < nq; i++ { // which of two ready channels the loop serves first is random: repeat
+			scs = append(scs, scenario{[]string{"queuedcancel"}})
 		}
 		n := 400
 		if f.Thorough() {
